@@ -71,6 +71,15 @@ def Call.silent : {β : Type} → Call β → Bool
   | _, .popMany n => decide (n ≤ 0)
   | _, _ => false
 
+/-- calls whose clock read happens when the call *starts* (before its first storage command): the ready
+time of `enqueue`, the update score of `instances.Add`, the bound of `PopMany`.  Registry writes read
+the clock late (after the `HGET`, right before the batch is sent). -/
+def Call.clockAtArrival : {β : Type} → Call β → Bool
+  | _, .enqueue _ _ _ => true
+  | _, .insAdd _ => true
+  | _, .popMany _ => true
+  | _, _ => false
+
 inductive Prog (α : Type) : Type 1 where
   | ret (a : α) : Prog α
   | call {β : Type} (c : Call β) (k : β → Prog α) : Prog α
@@ -138,6 +147,11 @@ def skipSilent {α : Type} : Nat → Prog α → AbsState → Int → List Strin
       let (s', b) := c.exec s now
       skipSilent fuel (k b) s' now (if c.name == "now" then names else names ++ [c.name])
     else (s, .call c k, names)
+
+/-- does the head call read the clock when it starts? -/
+def headAtArrival {α : Type} : Prog α → Bool
+  | .ret _ => false
+  | .call c _ => c.clockAtArrival
 
 /-- name of the head call, if any -/
 def headName {α : Type} : Prog α → Option String
